@@ -78,10 +78,10 @@ func generate(r *hxlib.Run, emit0 func(hxlib.Case)) {
 			emit(c)
 		}
 	}
-	for i := 0; i < r.Budget(50, 400); i++ {
+	for i := 0; i < r.Budget(100, 400); i++ {
 		emit(valueMatrixCase(r, i))
 	}
-	nHist := r.Budget(1500, 15000)
+	nHist := r.Budget(3000, 15000)
 	for i := 0; i < nHist && !processPoisoned; i++ {
 		emit(historyCase(r, "history"))
 		if i%5 == 0 {
@@ -91,7 +91,7 @@ func generate(r *hxlib.Run, emit0 func(hxlib.Case)) {
 			emit(implOnlyCase(r))
 		}
 	}
-	nTrace := r.Budget(2500, 30000)
+	nTrace := r.Budget(5000, 30000)
 	for i := 0; i < nTrace && !processPoisoned; i++ {
 		emit(traceCase(r))
 	}
